@@ -489,6 +489,52 @@ func c20BuildCatalogue() *c20Catalogue {
 	}).build("xNA.extra:=tlv,unsigned"))
 	sem(&c.SemNA, na(func(s *c20NASpec) { s.extra = c20ExtraTLV }).build("xNA.extra=tlv,signed"))
 
+	// ---- flag / content lattice ---------------------------------------------------
+	// Every dimension of a channel_update that does not bear on authenticity or on
+	// which policy slot it addresses (disable bit, a reserved high channel-flag bit,
+	// an extra message-flag bit) crossed with timestamps {older, equal, newer}
+	// relative to the honest policy at t, for both directions, all correctly signed.
+	// Freshness is a matter of (scid, direction bit, timestamp) only.
+	tsNames := []struct {
+		n  string
+		ts uint32
+	}{{"older", T - 1}, {"equal", T}, {"newer", T + 1}}
+	n := uint32(0)
+	for dir := 0; dir < 2; dir++ {
+		for _, cf := range []lnwire.ChanUpdateChanFlags{0, lnwire.ChanUpdateDisabled, 0x80, lnwire.ChanUpdateDisabled | 0x40} {
+			for _, mf := range []lnwire.ChanUpdateMsgFlags{lnwire.ChanUpdateRequiredMaxHtlc, lnwire.ChanUpdateRequiredMaxHtlc | 0x02} {
+				for _, tn := range tsNames {
+					n++
+					sp := c20HonestCU(dir, tn.ts)
+					sp.cflags = lnwire.ChanUpdateChanFlags(dir) | cf
+					sp.mflags = mf
+					sp.base = 9000 + n
+					sem(&c.SemCU, sp.build(fmt.Sprintf("lCU%d.cf=%02x.mf=%02x.ts=%s", dir, uint8(cf), uint8(mf), tn.n)))
+				}
+			}
+		}
+	}
+	// node_announcement: each content field changed (and signed), for both nodes,
+	// at {older, equal, newer} timestamps
+	for which := 1; which <= 2; which++ {
+		for _, fld := range []string{"alias", "addr", "features", "color"} {
+			for _, tn := range tsNames {
+				sp := c20HonestNA(which, tn.ts)
+				switch fld {
+				case "alias":
+					sp.alias = fmt.Sprintf("renamed-%d", which)
+				case "addr":
+					sp.addrs = []net.Addr{&net.TCPAddr{IP: net.IPv4(10, 9, 9, byte(which)), Port: 9736}}
+				case "features":
+					sp.features = lnwire.NewRawFeatureVector(lnwire.TLVOnionPayloadRequired, lnwire.FeatureBit(37))
+				case "color":
+					sp.rgb = color.RGBA{R: 0xaa, G: 0xbb, B: byte(which)}
+				}
+				sem(&c.SemNA, sp.build(fmt.Sprintf("lNA%d.%s.ts=%s", which, fld, tn.n)))
+			}
+		}
+	}
+
 	for id, m := range c.byID {
 		if m.Decoded == nil {
 			panic(fmt.Sprintf("c20: catalogue message %s does not decode: %s", id, m.DecErr))
